@@ -44,6 +44,11 @@ pub struct Case {
     pub arrivals: Vec<(u32, Kind)>,
     pub outgoing: bool,
     pub assign_first: bool,
+    /// 0 = none; otherwise the connection's task is not scheduled from 110 s to 110+stall_s s after the start (it is
+    /// blocked, e.g. in a write the remote does not read): its first keep-alive tick comes due meanwhile. Such cases
+    /// have no scripted arrivals.
+    #[serde(default)]
+    pub stall_s: u8,
     pub seed: u64,
 }
 
@@ -78,8 +83,15 @@ fn strategy() -> BoxedStrategy<Case> {
         1 => Just(Start::NoHandshake),
         1 => prop::sample::select(vec![300u32, 1190, 1210, 2390, 2410, 3000, 3590]).prop_map(Start::LateHandshake),
     ];
-    (start, prop_oneof![3 => mixed, 2 => lively], any::<bool>(), any::<bool>(), any::<u64>())
-        .prop_map(|(start, arrivals, outgoing, assign_first, seed)| Case { start, arrivals, outgoing, assign_first, seed })
+    (start, prop_oneof![3 => mixed, 2 => lively], any::<bool>(), any::<bool>(), any::<u64>(), prop_oneof![7 => Just(0u8), 1 => 15u8..=100])
+        .prop_map(|(start, arrivals, outgoing, assign_first, seed, stall_s)| {
+            if stall_s > 0 {
+                let start = if matches!(start, Start::LateHandshake(_)) { Start::HandshakeFirst } else { start };
+                Case { start, arrivals: vec![], outgoing, assign_first, stall_s, seed }
+            } else {
+                Case { start, arrivals, outgoing, assign_first, stall_s, seed }
+            }
+        })
         .boxed()
 }
 
@@ -187,6 +199,13 @@ pub fn check(c: &Case) -> Outcome {
                     }
                 }
             }
+            if c.stall_s > 0 && w.handler_alive(conn) {
+                w.advance_to(Duration::from_secs_f64(t0 + 110.0)).await;
+                w.frozen.insert(conn);
+                w.advance_to(Duration::from_secs_f64(t0 + 110.0 + c.stall_s as f64)).await;
+                w.frozen.remove(&conn);
+                w.settle().await;
+            }
             // let the silence run out
             let end = w.now() + Duration::from_secs(500);
             w.advance_to(end).await;
@@ -224,6 +243,7 @@ pub fn check(c: &Case) -> Outcome {
     o.class_if(near_tick, "arrival-within-1.5s-of-a-tick");
     o.class_if(long_silence, "silence>240s-inside-schedule");
     o.class_if(c.assign_first, "piece-assigned");
+    o.class_if(c.stall_s > 0, "task-not-scheduled-across-a-tick");
     o.class_if(c.outgoing, "outgoing");
     o.class_if(helper_delivered > 0, "other-peer-completes-pieces-meanwhile");
     o.class_if(c.start == Start::NoHandshake, "never-handshakes");
@@ -272,7 +292,10 @@ pub fn check(c: &Case) -> Outcome {
         if tick >= close - EPS {
             break;
         }
-        let hits: Vec<usize> = kas.iter().enumerate().filter(|(_, t)| **t >= tick - EPS && **t <= tick + 1.0 + 2.0 * EPS).map(|(i, _)| i).collect();
+        // a tick that came due while the task was not scheduled is served when it runs again
+        let stall_end = t0 + 110.0 + c.stall_s as f64;
+        let late = if c.stall_s > 0 && tick >= t0 + 110.0 && tick <= stall_end { stall_end - tick } else { 0.0 };
+        let hits: Vec<usize> = kas.iter().enumerate().filter(|(_, t)| **t >= tick - EPS && **t <= tick + late + 1.0 + 2.0 * EPS).map(|(i, _)| i).collect();
         if hits.len() != 1 {
             o.fail(
                 if hits.is_empty() { "keep-alive-missing-at-tick" } else { "several-keep-alives-at-tick" },
